@@ -713,24 +713,32 @@ static double _fff_onesample_mean_gmfx(void* params, const fff_vector* x, const 
 static double _fff_onesample_LR_gmfx(void* params, const fff_vector* x, const fff_vector* var, double base)
 {
   int sign;
-  double t, mu = 0.0, v = 0.0, v0 = 0.0, nll, nll0;
+  double t, mu = 0.0, v = 0.0, v0 = 0.0, zero = 0.0, nll, nll0;
   unsigned int niter = *((unsigned int*)params);
+  fff_vector* xc = fff_vector_new(x->size);
+
+  /* Residuals wrt the baseline: the null hypothesis is a zero group mean */
+  fff_vector_memcpy(xc, x);
+  fff_vector_add_constant(xc, -base);
 
   /* Estimate maximum likelihood group mean and group variance */
-  _fff_onesample_gmfx_EM(&mu, &v, x, var, niter, 0);
+  _fff_onesample_gmfx_EM(&mu, &v, xc, var, niter, 0);
 
   /* MFX mean estimate equals baseline, return zero */
-  t = mu - base;
+  t = mu;
   sign = FFF_SIGN(t);
-  if (sign == 0)
+  if (sign == 0) {
+    fff_vector_delete(xc);
     return 0.0;
+  }
 
   /* Estimate maximum likelihood group variance under zero group mean assumption */
-  _fff_onesample_gmfx_EM(&base, &v0, x, var, niter, 1);
+  _fff_onesample_gmfx_EM(&zero, &v0, xc, var, niter, 1);
 
   /* Negated log-likelihoods */
-  nll = _fff_onesample_gmfx_nll(x, var, mu, v);
-  nll0 = _fff_onesample_gmfx_nll(x, var, base, v0);
+  nll = _fff_onesample_gmfx_nll(xc, var, mu, v);
+  nll0 = _fff_onesample_gmfx_nll(xc, var, zero, v0);
+  fff_vector_delete(xc);
 
   /* If both nll and nll0 are globally minimized, we always have:
      nll0 >= nll; however, EM convergence issues may cause nll>nll0,
@@ -929,25 +937,14 @@ static double _fff_onesample_wilcoxon_mfx(void* params, const fff_vector* x, con
     *buf1 = FFF_ABS(zi);
   }
 
-  /* Sort the absolute residuals and get the permutation of indices */
-  /**  gsl_sort_vector_index(Params->idx, Params->tmp1); **/
-  _fff_sort_z(Params->idx, Params->tmp1, Params->tmp2, Params->z, Params->w);
+  /* Sort the absolute residuals (tmp1) and reorder the weights accordingly (tmp2);
+     idx keeps the permutation of indices */
+  _fff_sort_z(Params->idx, Params->tmp1, Params->tmp2, Params->tmp1, Params->w);
 
-  /* Compute the sum of ranks */
-  /** Ri = 0.0;
-  for(i=0; i<n; i++) {
-    j = Params->idx->data[i];
-    zi = Params->z->data[j*Params->z->stride];
-    wi = Params->w->data[j*Params->w->stride];
-    Ri += wi;
-    if (zi > base)
-      t += wi * Ri;
-    else if (zi < base)
-      t -= wi * Ri;
-      }**/
+  /* Compute the weighted sum of signed ranks */
   Ri = 0.0;
-  for(i=1, buf1=Params->tmp1->data, buf2=Params->tmp2->data; i<=n; i++) {
-    zi = *buf1;
+  for(i=0, buf2=Params->tmp2->data; i<n; i++, buf2+=Params->tmp2->stride) {
+    zi = Params->z->data[ Params->idx[i].i * Params->z->stride ];
     wi = *buf2;
     Ri += wi;
     if (zi > base)
@@ -966,26 +963,31 @@ static double _fff_onesample_LR_mfx(void* params, const fff_vector* x, const fff
   int sign;
   fff_onesample_mfx* Params = (fff_onesample_mfx*)params;
   long double aux, sumw;
+  fff_vector* xc = fff_vector_new(x->size);
+
+  /* Residuals wrt the baseline: the null hypothesis is a zero-mean population */
+  fff_vector_memcpy(xc, x);
+  fff_vector_add_constant(xc, -base);
 
   /* Estimate the population distribution using EM */
-  _fff_onesample_mfx_EM(Params, x, var, 0);
-  nll = _fff_onesample_mfx_nll(Params, x);
+  _fff_onesample_mfx_EM(Params, xc, var, 0);
+  nll = _fff_onesample_mfx_nll(Params, xc);
 
   /* Estimate the population mean */
-  /**  mu = gsl_stats_wmean (Params->w->data, Params->w->stride, Params->z->data, Params->z->stride, Params->z->size); **/
   aux = fff_vector_wsum(Params->z, Params->w, &sumw);
-  mu = aux/sumw - base;
-
+  mu = aux/sumw;
 
   /* MFX mean estimate equals baseline, return zero */
-  t = mu - base;
-  sign = FFF_SIGN(t);
-  if (sign == 0)
+  sign = FFF_SIGN(mu);
+  if (sign == 0) {
+    fff_vector_delete(xc);
     return 0.0;
+  }
 
   /* Estimate the population distribution under zero mean constraint */
-  _fff_onesample_mfx_EM(Params, x, var, 1);
-  nll0 = _fff_onesample_mfx_nll(Params, x);
+  _fff_onesample_mfx_EM(Params, xc, var, 1);
+  nll0 = _fff_onesample_mfx_nll(Params, xc);
+  fff_vector_delete(xc);
 
   /* Compute the one-sided likelihood ratio statistic */
   t = -2.0 * (nll - nll0);
@@ -1286,7 +1288,7 @@ void fff_onesample_permute_signs(fff_vector* xx, const fff_vector* x, double mag
 
   for (i=0; i<n; i++, bufx+=x->stride, bufxx+=xx->stride) {
     aux = m/2;
-    m = FFF_FLOOR(aux);
+    m = floor(aux);
     aux -= m;
     if (aux > 0)
       *bufxx = -*bufx;
